@@ -169,8 +169,10 @@ pub struct LintGroup {
     /// when a chunk changes.
     ///
     /// Since the pattern linter results also depend on the config, we hash it and pass it as part
-    /// of the key.
-    chunk_pattern_cache: LruCache<(CharString, u64), Vec<Lint>>,
+    /// of the key. They also depend on how the chunk was tokenized (the same characters are
+    /// tokenized differently by different parsers), so a hash of the chunk's tokens is the third
+    /// part of the key.
+    chunk_pattern_cache: LruCache<(CharString, u64, u64), Vec<Lint>>,
     hasher_builder: RandomState,
 }
 
@@ -406,7 +408,16 @@ impl Linter for LintGroup {
 
             let chunk_chars = document.get_span_content(&chunk_span);
             let config_hash = self.hasher_builder.hash_one(&self.config);
-            let key = (chunk_chars.into(), config_hash);
+            let token_hash = {
+                let mut hasher = self.hasher_builder.build_hasher();
+                for token in chunk {
+                    token.kind.hash(&mut hasher);
+                    (token.span.start - chunk_span.start).hash(&mut hasher);
+                    (token.span.end - chunk_span.start).hash(&mut hasher);
+                }
+                hasher.finish()
+            };
+            let key = (chunk_chars.into(), config_hash, token_hash);
 
             let mut chunk_results = if let Some(hit) = self.chunk_pattern_cache.get(&key) {
                 hit.clone()
